@@ -24,6 +24,9 @@ package generator
 
 //@ func wrapBranch(name string, message profile.Message, branch BranchRegoResult, matchesVariable string, mappingVariable string, iriExpander *misc.IriExpander) []string
 //@   ensures [C13:validation-name-literal] len(result) >= 1 && hasPrefix(result[len(result) - 1], "  " + matchesVariable + " := error(" + jsonQuote(name) + "," + mappingVariable + ", message ,[")
+//@   ensures [C12:one-trace-binding-per-atom] exists q []string :: len(q) == len(branch.Branch) && (forall j int :: 0 <= j && j < len(q) ==> q[j] == "_result_" + itoa(j)) && result[len(result) - 1] == "  " + matchesVariable + " := error(" + jsonQuote(name) + "," + mappingVariable + ", message ,[" + strJoin(q, ",") + "])"
+//@   loop 1 /* for i, r := range branch.Branch */
+//@     invariant [C12] len(resultBindings) == #i && (forall j int :: 0 <= j && j < #i ==> resultBindings[j] == "_result_" + itoa(j))
 
 //@ func regexLiteral(pattern string) string
 //@   ensures [C13:raw-or-quoted] (contains(pattern, "`") ==> result == jsonQuote(pattern)) && (!contains(pattern, "`") ==> result == "`" + pattern + "`")
@@ -88,6 +91,7 @@ package generator
 //@   ensures [C01:single-result] len(result) == 1 && result == snoc(empty(Seq_S_generator_SimpleRegoResult), result[0])
 
 //@ func generateNested(exp profile.NestedExpression, iriExpander *misc.IriExpander) []GeneratedRegoResult
+//@   ensures [C12:component-named] len(result) == 1 && is(result[0], generator.BranchRegoResult) && result[0].(generator.BranchRegoResult).Constraint != "" && len(result[0].(generator.BranchRegoResult).Branch) == 1 && result[0].(generator.BranchRegoResult).Branch[0].Constraint != ""
 //@   requires [C01:operand] okOperand(exp.Value)
 //@   ensures [C01:one-branch] len(result) == 1 && allResults(result) && hasBranch(result) && simplesFail(result) && anyBranchFailsG(result) == anyFailsG(result)
 //@   ensures-assumed [C01:A-FRAGMENT] anyFailsG(result) == !holds(box(profile.NestedExpression, exp))
